@@ -12,6 +12,10 @@ func Get(name, scratch string, m *testing.M) simkit.World {
 	switch name {
 	case "store-trie":
 		return &store.C10{Scratch: scratch}
+	case "store-proof":
+		return &store.C11{Scratch: scratch}
+	case "store-snap":
+		return &store.C12{Scratch: scratch}
 	}
 	return nil
 }
